@@ -22,6 +22,8 @@ func runC13(c *Ctx, r *Report) {
 	c.checkParamsAreCreated(r, "C13.R9")
 	r.Rule("C13.R11", "both assignment tokens define macros: eval.isAssign tests the expression's token against ASSIGN and against DEFINE")
 	c.checkMacroDefinitionTokens(r, "C13.R11")
+	r.Rule("C13.R12", "callbacks of ast.Modify tolerate absent children: in every function handed to Modify / ModifyNoOk (and the functions it hands the node on to) a method call or single-result type assertion on the node parameter is dominated by a nil test or the true edge of a comma-ok assertion")
+	c.checkModifyCallbacksNilSafe(r, "C13.R12")
 	r.Rule("C13.R10", "a call that names a macro is always expanded: in the callback of ExpandMacros, on the ok edge of isMacroCall no return hands back the callback's own argument")
 	c.checkMacroCallsAlwaysExpand(r, "C13.R10")
 	r.Rule("C02.R2", "(shared) the expanded program prints and re-parses like the hand-substituted one only if operator printers honour precedence")
